@@ -98,6 +98,19 @@ CLAIMED = {
                  "symmetric segment range; randomly_permute_subset_order delivers a permutation (assumed); std::vector modelled by "
                  "bounded array / ghost counters; parametric: num_subsets swept as constants"),
     },
+    "C08": {
+        "text": ("partial - the bounds clause and the schedule of the relaxation: (a) threshold_upper_lower / threshold_upper / threshold_lower "
+                 "(thresholding.h, loop contracts, symbolic length, ghost element): afterwards every element equals clamp(old, min, max) exactly and "
+                 "nothing else changed - with the supporting static fact that update_estimate's last write to the image is "
+                 "threshold_upper_lower(all, 0.F, float(upper_bound)), iterates lie within [0, upper bound]; (b) the integer iteration number n used in "
+                 "the relaxation alpha/(1+gamma*n) (statement kernel, per number of subsets): equals the full iteration (k-1)/num_subsets of "
+                 "sub-iteration k for every sub-iteration that is not the last of its full iteration; for the last one it is n+1 (KNOWN FINDING, "
+                 "reported on every run), never anything else; (c) BOUNDED (sequence length <= 6, not counted as proof): after "
+                 "threshold_min_to_small_positive_value every element of a NaN-free denominator is strictly positive. Not decided: the additive update "
+                 "formula (array expressions through virtual objective-function calls), the curvature, restart equivalence."),
+        "note": ("trusted: cbmc 6.11.0 MiniSat; iterators are pointers into one float array; static facts are syntactic scans; the shape "
+                 "alpha/(1+gamma*n) of the relaxation statement is matched by the extraction rule"),
+    },
     "C09": {
         "text": ("partial - border clause only: for every one of the 45 neighbourhood-bound sites in Quadratic/RelativeDifference/"
                  "Logcosh priors the extracted bound expressions satisfy, for all ints (|.|<2^28): every visited offset d addresses "
@@ -111,7 +124,7 @@ CLAIMED = {
 
 _PENDING = "claimed in DESIGN.md but the check is not built yet in this commit; will move to checks when it exists"
 NOT_APPLICABLE = {
-    "C08": _PENDING, "C20": _PENDING,
+    "C20": _PENDING,
     "C04": "linearity/adjointness/additivity are equalities up to floating-point reassociation between long accumulations through virtual projector classes; bit-precise CBMC cannot state 'up to rounding' compositionally nor close the Siddon/interpolation loops; no leaf contract decides it",
     "C05": "value/gradient/Hessian are float sums over all bins with log(), reached only through virtual objective-function/projector objects; CBMC's libm model leaves log unconstrained; element-wise kernels do not decide the textbook equality",
     "C07": "EM update is spread over array expressions, back projection and sensitivity caches behind virtual calls; monotonicity/count preservation are real-analysis facts that do not survive bit-precise float semantics; the schedule part of restartability is decided under C06",
